@@ -325,9 +325,33 @@ func crash11Workload(args []string) int {
 				// that the chain meta's interchain transaction count moves with it
 				h = gen.R.Height() + 2
 			}
+			// the case in the middle of the generated history also has the crash block write a key that holds a
+			// present-but-empty value: a request with timeout 7 two blocks before, its receipt one block before (the
+			// timeout list of that height is emptied, not removed), and the crash block's request due at the same height
+			emptied := h == gen.R.Height()+2
 			for gen.R.Height() < h+4 || gen.R.Height() < 27 {
+				if emptied && gen.R.Height()+2 == h {
+					g.forceReq, g.forceTimeout = true, 7
+				}
+				if emptied && gen.R.Height()+1 == h {
+					g.forceRcp = true
+				}
 				if gen.R.Height() == h {
 					g.forceReq = true
+					if emptied {
+						g.forceTimeout = 5
+						// what the state store holds under the timeout list of height h+6 right before the crash block
+						d := gen.R.DumpState()
+						for k, v := range d {
+							if strings.HasSuffix(k, fmt.Sprintf("timeout-%d", h+6)) {
+								if len(v) == 0 {
+									w.Count("crash_blocks_rewriting_an_emptied_timeout_list", 1)
+								} else {
+									w.Count("obs_timeout_list_not_emptied_before_crash_block", 1)
+								}
+							}
+						}
+					}
 				}
 				txs := g.genBlock(gen.R.Height() + 1)
 				// a storage key that is readable and at the same time a valid hex string (the journal hex-encodes
